@@ -413,11 +413,23 @@ func (ex *exec) loopHead(li *loopInfo, st *State) {
 				vc.oblige(fmt.Sprintf("loop%d.entry[%s]", li.ordinal, p.name), "loop", ex.cur, p.t, c.Text, pos)
 			}
 		}
+		for i, c := range spec.EntryOnly {
+			parts, err := env.splitGoal(c.E, clauseName(c, i))
+			if err != nil {
+				ex.bail("loop %d entry clause (line %d): %v", li.ordinal, c.Line, err)
+			}
+			for _, p := range parts {
+				vc.oblige(fmt.Sprintf("loop%d.at_entry[%s]", li.ordinal, p.name), "loop", ex.cur, p.t, c.Text, pos)
+			}
+		}
 	}
 	// 2. havoc what the loop modifies
 	modLocals, modHeaps, all := ex.loopModifies(li)
 	pre := st.clone()
-	if spec != nil && spec.HasModifies && !all {
+	if spec != nil && spec.HasModifies {
+		// (a call without contract on a reachable path of the body still havocs everything when it is executed,
+		// and then the back-edge frame check fails; statically dead calls, e.g. under a constant debug flag, do not matter)
+		_ = all
 		// precise havoc: only the listed locations (evaluated in the pre-loop state); every other heap map the
 		// loop touches must stay within them, which is checked at each back edge (loopN.frame[...]).
 		nr := vc.freshConst("nextRef", "Int")
@@ -431,7 +443,17 @@ func (ex *exec) loopHead(li *loopInfo, st *State) {
 		}
 		ex.loopPre[li.header] = pre
 	} else if all {
-		vc.havocAllHeap(st)
+		if vc.contract != nil && vc.contract.HasSync {
+			keeps := ex.syncKeeps(pre)
+			vc.havocAllHeap(st)
+			skip := map[string]bool{}
+			for _, h := range modHeaps {
+				skip[h] = true
+			}
+			ex.applyKeeps(keeps, pre, st, skip)
+		} else {
+			vc.havocAllHeap(st)
+		}
 	} else {
 		nr := vc.freshConst("nextRef", "Int")
 		vc.assume("true", "(>= "+nr+" "+st.nextRef+")")
@@ -609,6 +631,10 @@ func (ex *exec) loopModifies(li *loopInfo) (locals []*ssa.Alloc, heaps []string,
 				}
 			case *ssa.Go, *ssa.Defer, *ssa.Send, *ssa.Select:
 				all = true
+			case *ssa.UnOp:
+				if x.Op == token.ARROW {
+					all = true
+				}
 			}
 		}
 	}
@@ -1127,6 +1153,9 @@ func (ex *exec) zeroInit(st *State, ref string, t types.Type) {
 
 func (ex *exec) edge(st *State, from, to *ssa.BasicBlock, cond string) {
 	vc := ex.vc
+	if cond == "false" {
+		return // statically dead edge (e.g. a constant debug flag): the target is not explored along it
+	}
 	if ex.isBackEdge(from, to) {
 		li := ex.loopOf[to]
 		if li == nil {
@@ -1509,8 +1538,97 @@ func (ex *exec) typeAssert(st *State, x *ssa.TypeAssert) {
 	}
 }
 
+// chanOp: a channel send/receive inside a function with a `sync preserves` clause is a synchronisation point:
+// the whole heap is havocked except the listed locations (which only this goroutine writes).
+type syncKeep struct {
+	hi  *heapInfo
+	ref string
+	sl  string // for element ranges: slice term (evaluated before)
+	all bool
+}
+
+func (ex *exec) syncKeeps(before *State) []syncKeep {
+	vc := ex.vc
+	fc := vc.contract
+	env := ex.newEnv(before, vc.entry)
+	var keeps []syncKeep
+	for _, a := range fc.SyncPreserves {
+		switch x := a.E.(type) {
+		case *SSelect:
+			b, err := env.term(x.X)
+			if err != nil {
+				ex.bail("sync preserves %s: %v", a.Text, err)
+			}
+			hi, ref, err := ex.fieldCell(env, b, x.Sel)
+			if err != nil {
+				ex.bail("sync preserves %s: %v", a.Text, err)
+			}
+			keeps = append(keeps, syncKeep{hi: hi, ref: ref})
+		case *SCall:
+			if x.Fun != "allfields" {
+				ex.bail("sync preserves %s: unsupported", a.Text)
+			}
+			b, err := env.term(x.Args[0])
+			if err != nil {
+				ex.bail("sync preserves %s: %v", a.Text, err)
+			}
+			if err := ex.allFieldCells(env, b, func(hi *heapInfo, ref string) { keeps = append(keeps, syncKeep{hi: hi, ref: ref}) }); err != nil {
+				ex.bail("sync preserves %s: %v", a.Text, err)
+			}
+		case *SIndex:
+			b, err := env.term(x.X)
+			if err != nil {
+				ex.bail("sync preserves %s: %v", a.Text, err)
+			}
+			if b.S != SSlice || x.I != nil {
+				ex.bail("sync preserves %s: only whole slices x.f[*]", a.Text)
+			}
+			keeps = append(keeps, syncKeep{hi: vc.elemHeap(b.Typ.Underlying().(*types.Slice).Elem()), sl: b.T, all: true})
+		default:
+			ex.bail("sync preserves %s: unsupported", a.Text)
+		}
+	}
+	return keeps
+}
+
+// applyKeeps: the kept locations have the same value in st as in before (heap maps in skip are excluded).
+func (ex *exec) applyKeeps(keeps []syncKeep, before, st *State, skip map[string]bool) {
+	vc := ex.vc
+	for _, k := range keeps {
+		if skip[k.hi.name] {
+			continue
+		}
+		oldH := vc.heapGet(before, k.hi)
+		newH := vc.heapGet(st, k.hi)
+		if k.all {
+			vc.addLine(fmt.Sprintf("(assert (=> %s (forall ((i! Int)) (! (=> (and (<= (soff %s) i!) (< i! (+ (soff %s) (slen %s)))) (= (select (select %s (sarr %s)) i!) (select (select %s (sarr %s)) i!))) :pattern ((select (select %s (sarr %s)) i!))))))",
+				ex.cur, k.sl, k.sl, k.sl, newH, k.sl, oldH, k.sl, newH, k.sl))
+		} else {
+			vc.assume(ex.cur, sEq("(select "+newH+" "+k.ref+")", "(select "+oldH+" "+k.ref+")"))
+		}
+	}
+}
+
 func (ex *exec) chanOp(st *State, ins ssa.Instruction) {
-	ex.bail("channel operation")
+	vc := ex.vc
+	fc := vc.contract
+	if fc == nil || !fc.HasSync {
+		ex.bail("channel operation")
+	}
+	before := st.clone()
+	keeps := ex.syncKeeps(before)
+	vc.havocAllHeap(st)
+	ex.applyKeeps(keeps, before, st, nil)
+	// value received
+	if u, ok := ins.(*ssa.UnOp); ok {
+		t := u.Type()
+		if u.CommaOk {
+			ex.bail("comma-ok receive")
+		}
+		n := vc.freshConst("recv", vc.sorts.sortOf(t))
+		vc.assume("true", vc.sorts.typeInv(t, n, st.nextRef))
+		vc.vals[u] = Val{T: n, S: vc.sorts.sortOf(t), Typ: t}
+	}
 }
 
 // Range/Next over maps and strings: an over-approximation that is sound for safety, frame and read obligations:
